@@ -62,7 +62,9 @@ func init() {
 		n, _ := strconv.Atoi(a[2])
 		c.SetMaxAge(n)
 		c.SetDomain(string(unhx(a[3])))
-		c.SetPathBytes(unhx(a[4]))
+		if a[4] != "N" { // N: the path is never set (SetPath normalises "" to "/")
+			c.SetPathBytes(unhx(a[4]))
+		}
 		c.SetHTTPOnly(a[5] == "1")
 		c.SetSecure(a[6] == "1")
 		ss, _ := strconv.Atoi(a[7])
@@ -117,14 +119,29 @@ func genC17uri(tier string, rng *Rng) {
 		default:
 			key := string(rng.Bytes([]byte("ab=; \"%\x00"), 4))
 			val := string(rng.Bytes([]byte("ab=; \"%,\\\x00"), 6))
+			clean := rng.Intn(5) < 3 // mostly-valid stream: the round trip is claimed for these
+			if clean {
+				key = string(rng.Bytes([]byte("abK-_%\x00\xc3"), 1+rng.Intn(4)))
+				val = string(rng.Bytes([]byte("abV=%,\\\x00\xc3 "), rng.Intn(7)))
+				if rng.Intn(6) == 0 {
+					key = ""
+				}
+			}
 			ex := "0"
 			if rng.Intn(4) == 0 {
 				ex = strconv.Itoa(1 + rng.Intn(2000000000))
 			}
-			runOp([]string{"cookiert", hx([]byte(key)), hx([]byte(val)), pick(rng, []string{"0", "0", "1", "3600", "-5"}), hx([]byte(pick(rng, []string{"", "example.com", "a;b", " d "}))),
-				hx([]byte(pick(rng, []string{"", "/", "/a b", "/x;y"}))), b2i(rng.Bool()), b2i(rng.Bool()), strconv.Itoa(rng.Intn(5)), b2i(rng.Intn(4) == 0), ex})
+			runOp([]string{"cookiert", hx([]byte(key)), hx([]byte(val)), pick(rng, []string{"0", "0", "1", "3600", "-5", "9223372036854775807"}), hx([]byte(pick(rng, pickDomains(clean)))),
+				pick(rng, []string{"N", "N", hx([]byte("")), hx([]byte("/")), hx([]byte("/a b")), hx([]byte("/x;y"))}), b2i(rng.Bool()), b2i(rng.Bool()), strconv.Itoa(rng.Intn(5)), b2i(rng.Intn(4) == 0), ex})
 		}
 	}
+}
+
+func pickDomains(clean bool) []string {
+	if clean {
+		return []string{"", "example.com", "a.b:8080", "d e"}
+	}
+	return []string{"", "example.com", "a;b", " d "}
 }
 
 func genCookieString(rng *Rng) []byte {
